@@ -36,7 +36,7 @@ def expected_prefix(full_objs, encs, data, k):
 
 def run(v, tier, seed, replay=None):
     meta, _ = common.translate()
-    ok, failed, info = coqrun.prove(v, 'C08', ['Inst/StreamRT.v', 'Inst/PrefixEq.v', 'Inst/TermEq.v'])
+    ok, failed, info = coqrun.prove(v, 'C08', ['Inst/StreamRT.v', 'Inst/PrefixEq.v', 'Inst/UnknownEq.v', 'Inst/TermEq.v'])
     res = filerun.run(meta, seed, tier)
     full = {}
     for r in res['r']:
@@ -136,7 +136,7 @@ def run(v, tier, seed, replay=None):
         'evaluations': checked, 'distinct_nontrivial': len(set((id(r['of']), r['cut']) for r in res['r'] if r['mode'] == 'trunc' and r['cut'] > 144)),
         'rule': 'every file of the file-layer run (levels 0-9, container sizes that split objects and object headers, restore points on/off) cut at offsets {0,1,3,4,143..145,160,175..177,L-33,L-4,L-2,L-1} plus random offsets (every offset of files up to 700 bytes in thorough); the real reader under a watchdog must throw the library exception or deliver exactly the objects wholly inside completely stored containers (independent container walk), identical to those of the full read, then end; monotone in the offset; a sample of the files also with the INITIAL header (fileSize, uncompressedFileSize, objectCount, restorePointsOffset zero, as open(out) writes them), uncut and cut. Non-trivial = distinct (file, offset beyond the header).',
         'cuts_checked': checked, 'initial_header_cuts': ichecked, 'correspondence_disagreements': ndis, 'oracle_failures': bad,
-        'theorems': ['C08_cut_structure', 'C08_monotone', 'C08_complete_file', 'C08_stream_prefix', 'C08_stream_prefix_example'],
+        'theorems': ['C08_cut_structure', 'C08_monotone', 'C08_complete_file', 'C08_stream_prefix', 'C08_mixed_stream_prefix', 'C08_stream_prefix_example'],
     })
     v.coverage.update(cov)
     return 'proof'
